@@ -1,10 +1,16 @@
-from props.common import run_bounded, add_obs
+from props.common import run_bounded, add_obs, verify_keys
 from pv import obs_tables as T
 
 
 def run(report):
     add_obs(report, lambda: T.all_versions(which=('ll1',))[0], name='tables')
-    report.assume("exception-freedom and termination obligations of the parser engine (DESIGN 4/C02) are not discharged "
-                  "deductively; totality rests on the bounded stand-in",
+    verify_keys(report, ['parso.parser.BaseParser._add_token', 'parso.parser.BaseParser._pop', 'parso.parser.StackNode.__init__',
+                         'parso.python.parser.Parser.convert_leaf', 'parso.tree.Leaf.__init__', 'parso.tree.ErrorLeaf.__init__',
+                         'parso.tree.BaseNode.__init__', 'parso.tree.Node.__init__'])
+    report.assume("engine: _add_token / _pop are proved free of IndexError / KeyError / AttributeError and to keep the stack "
+                  "shape under the preconditions 'stack non-empty and well formed', 'tables well formed' (T obligations) and "
+                  "'the root entry is not complete' (ENDMARKER is the last token: tokenizer contract, bounded); "
+                  "error_recovery, _stack_removal, convert_node and BaseParser.parse are used through assumed contracts or "
+                  "not covered: totality of the whole pipeline rests on the bounded stand-in",
                   "A-REC: recursion depth / memory not modelled")
     run_bounded(report, ['parse', 'blk', 'fstr'], extra='nesting')
